@@ -30,7 +30,7 @@ choices, `find_subtypes`); that every result of it satisfies `instOK` (`compute_
 is checked by refinement on explored calls only, not proved.
 -/
 namespace Heph.Props.C08
-open Heph Heph.Ty Heph.Inst
+open Heph Heph.Ty Heph.Ty.D2 Heph.Inst
 
 /-! ## 1. `_get_type_arg_variance` -/
 
